@@ -291,6 +291,7 @@ class Interp:
         self.inlined = {}
         self.merge_bool = True
         self.pruned_order = 0
+        self.fnitems = {}
         self.aggregate_aborts = True
 
     # ---- helpers
@@ -349,7 +350,10 @@ class Interp:
 
     def konst_value(self, st, fr, o):
         if 'fn' in o:
-            return ('fnitem', o['fn'])
+            # function items are values (e.g. `.map(str::to_ascii_lowercase)`): keep the term hashable, the resolved callee in a side table
+            fn = o['fn']; key = '%s<%s>' % ((fn.get('res') or fn)['def'], ','.join(map(str, (fn.get('res') or fn).get('args', []))))
+            self.fnitems[key] = fn
+            return ('fnitem', key)
         if 'uneval' in o and o.get('uneval_local') and 'promoted' not in o:
             return self.eval_named_const(o['uneval'])
         if 'promoted' in o:
@@ -674,7 +678,7 @@ class Interp:
             if body is not None:
                 return self.run_body(st, body, [fv] + list(args), {}, site)
         if fv[0] == 'fnitem':
-            fn = fv[1]
+            fn = self.fnitems[fv[1]]
             return self.call_fn(st, fn, list(args), [''] * len(args), site, {})
         return [(st, ('call', 'apply', (), (fv,) + tuple(args)))]
 
